@@ -80,7 +80,7 @@ class InfoGroupsResultIqProtocolEntity(ResultIqProtocolEntity):
             "subject": self.getSubject(),
             "creation": str(self.getCreationTimestamp()),
             "creator": self.getCreatorJid(),
-            "s_t": self.getSubjectTimestamp(),
+            "s_t": str(self.getSubjectTimestamp()),
             "s_o": self.getSubjectOwnerJid(),
             "id": self.getGroupId()
         })
